@@ -27,6 +27,8 @@ DECIDED_R6 = ('Round 6: saved alternatives retried last-in first-out and pushed 
 DECIDED = DECIDED + ' ' + DECIDED_R6
 DECIDED_R7 = ('Round 7: filter expressions compiled without flags; route objects are never falsy (truth-value recognition in the tree lookup).')
 DECIDED = DECIDED + ' ' + DECIDED_R7
+DECIDED_R8 = ("Round 8: PATH_INFO gets its mount prefix by concatenation only and _add never removes from the tree; the parser's negated character classes built from param_delimiters agree; a pending look-back record is tried whenever there is one.")
+DECIDED = DECIDED + ' ' + DECIDED_R8
 NOT_DECIDED = ('equivalence of the radix-tree search with a rule-by-rule matcher over all rule sets x paths (algorithmic '
                'equivalence over unbounded inputs); regex semantics of user filters; the rule-text parser.')
 ASSUMPTIONS = ['re.Pattern.match anchors at the start of the string it is given']
@@ -649,6 +651,10 @@ def check(P, R):
     R.rule('C01.h', 'the dispatched route comes from the tree lookup only', floor=1)
     check_path_as_requested(P, R, 'C01.h')
     check_add_never_removes(P, R, 'C01.h', 'the router selects exactly the route a rule-by-rule matcher selects from the registered rules')
+    # "registered rules" are those not removed: the removal pairing of C11.d is a premise (a rule dropped from the index but left mounted keeps being selected)
+    from ..report import run_premise
+    from . import c11 as _c11
+    run_premise(R, _c11, P, {'C11.d'}, 'C01.h', 'not found is answered only when no registered rule matches, and a removed rule is not registered')
     check_parser_literal_classes(P, R, 'C01.g')
     # ... and the lookup recognises a stored route by its truth value (`if pnode[DATA]`): a route object is never falsy
     from . import c02 as _c02
